@@ -187,9 +187,10 @@ class SinkFault(OSError):
 
 
 class _Faulty(logging.Handler):
-    def __init__(self, fail_at: int):
+    def __init__(self, fail_at: int, mode: str = "raise"):
         super().__init__(level=logging.DEBUG)
         self.fail_at = fail_at
+        self.mode = mode
         self.seen = 0
         self.fired = 0
 
@@ -197,6 +198,12 @@ class _Faulty(logging.Handler):
         self.seen += 1
         if self.seen == self.fail_at:
             self.fired += 1
+            if self.mode == "detach":
+                # the sink goes away in the middle of a construction (handler removed)
+                root = logging.getLogger()
+                if self in root.handlers:
+                    root.handlers.remove(self)
+                return True
             raise SinkFault(28, "simulated sink failure")
         return True
 
@@ -234,10 +241,10 @@ class SimLog:
         self.capture.records = []
         return recs
 
-    def arm(self, fail_at: int | None):
+    def arm(self, fail_at: int | None, mode: str = "raise"):
         """Attach (or detach, with None) the faulty sink behind the capture handler."""
         self.root.handlers = [self.capture]
         self.faulty = None
         if fail_at:
-            self.faulty = _Faulty(fail_at)
+            self.faulty = _Faulty(fail_at, mode)
             self.root.handlers.append(self.faulty)
